@@ -29,7 +29,8 @@ tvars == <<vars, l>>
 FSet(s) == {[f |-> x.f, pre |-> x.pre, tok |-> x.tok] : x \in Rng(s)}
 MSet(s) == {[k |-> x.k, pre |-> x.pre, tok |-> x.tok] : x \in Rng(s)}
 WFSet(s) == {[f |-> x.f, pre |-> x.pre, tok |-> x.tok, dv |-> x.dv] : x \in Rng(s)}
-StepOf(s) == [def |-> s.def, call |-> s.call, bad |-> s.bad, tag |-> s.tag, sleep |-> s.sleep, fields |-> WFSet(s.fields), md |-> MSet(s.md)]
+WMSet(s) == {[k |-> x.k, pre |-> x.pre, tok |-> x.tok, vf |-> x.vf] : x \in Rng(s)}
+StepOf(s) == [def |-> s.def, call |-> s.call, bad |-> s.bad, tag |-> s.tag, sleep |-> s.sleep, ans |-> s.ans, fields |-> WFSet(s.fields), md |-> WMSet(s.md)]
 FileOf(es) == [i \in 1..Len(es) |-> [name |-> es[i].name, steps |-> [j \in 1..Len(es[i].steps) |-> StepOf(es[i].steps[j])]]]
 
 Mark == TLCSet(1, IF TLCGet(1) > l + 1 THEN TLCGet(1) ELSE l + 1)
@@ -67,7 +68,9 @@ ObsRec == [method |-> Ev.method, fields |-> FSet(Ev.fields), md |-> MSet(Ev.md)]
 TRecv == /\ Ev.ev = "Recv"
          /\ \E g \in Guns : sh[g].ph = "call" /\ Fits(CurStep(g), ObsRec) /\ SendAct(g, ObsRec, shared, cache, 0, Ev.srv, scratch)
 TSample == /\ Ev.ev = "Sample"
-           /\ \E g \in Guns : sh[g].ph \in {"call", "sample"} /\ sh[g].gid = Ev.gid /\ Sample(g, Ev.tag, Ev.code = 200)
+           /\ \E g \in Guns : /\ sh[g].ph \in {"call", "sample"} /\ sh[g].gid = Ev.gid /\ Sample(g, Ev.tag, Ev.code = 200)
+                              \* an answered call's sample carries the answer
+                              /\ sh[g].ph = "sample" => Ev.code = StatusCode(CurStep(g).ans)
 TShootEnd == Ev.ev = "ShootEnd" /\ Ev.gun \in Guns /\ sh[Ev.gun].gid = Ev.gid /\ ShootEnd(Ev.gun)
 TRunEnd == /\ Ev.ev = "RunEnd" /\ Ev.err = "" /\ AllIdle
            /\ kind = "json" => RunComplete
